@@ -152,6 +152,7 @@ func init() {
 			ops := genPrioOps(r)
 			c.tag("ops:" + bucket(strings.Count(ops, ";")+1))
 			c.op(fmt.Sprintf("sched kind=%s ops=%s", kind, ops))
+			c.op(fmt.Sprintf("schedtrace kind=%s ops=%s", kind, ops)) // oracle: the trace specification judges the answers
 		}
 	})
 	register("sched", "C20/C12: operation sequences against the real round-robin and random write schedulers", func(c *ctx) {
@@ -160,7 +161,9 @@ func init() {
 			r := c.rng.fork()
 			kind := []string{"rr", "rr", "random"}[r.intn(3)]
 			c.tag("kind:" + kind)
-			c.op(fmt.Sprintf("sched kind=%s ops=%s", kind, genSchedOps(r, false)))
+			ops := genSchedOps(r, false)
+			c.op(fmt.Sprintf("sched kind=%s ops=%s", kind, ops))
+			c.op(fmt.Sprintf("schedtrace kind=%s ops=%s", kind, ops))
 		}
 	})
 }
